@@ -1,5 +1,5 @@
 import Drand.Codec.Hash
-namespace Drand.Driver
+namespace Drand.Driver.HashD
 open Drand Drand.Codec
 
 def showToks (ts : List PTok) : String :=
@@ -39,4 +39,4 @@ def hashStep (f : List String) : String :=
     | _, _, _, _, _, _ => "bad-op"
   | _ => "bad-op"
 
-end Drand.Driver
+end Drand.Driver.HashD
